@@ -3,6 +3,8 @@ package props
 import (
 	"bytes"
 	"fmt"
+	"os"
+	"path/filepath"
 	"sort"
 	"strings"
 	"testing"
@@ -35,6 +37,8 @@ type labelRec struct {
 	EmptyLabel bool `json:"emptyLabel,omitempty"`
 	// Big is the size of the stub's stanza body (large headers before a refusal).
 	Big int `json:"big,omitempty"`
+	// NoStanzas: the recipient returns an empty stanza list (legal)
+	NoStanzas bool `json:"noStanzas,omitempty"`
 }
 
 type c11Case struct {
@@ -97,6 +101,9 @@ func c11Spec(i int, r labelRec) hx.RecSpec {
 		body = hx.PRG(uint64(i), r.Big)
 	}
 	st := &hx.StubSpec{Stanzas: []refage.Stanza{{Type: fmt.Sprintf("stub%d", i), Args: []string{"arg"}, Body: body}}, Fail: r.Fail}
+	if r.NoStanzas {
+		st.Stanzas = nil
+	}
 	if r.Set >= 0 {
 		st.HasLabels = true
 		st.Labels = c11Labels(r)
@@ -245,6 +252,9 @@ func c11Check(c c11Case, st *stats.Run) error {
 				si++
 				continue
 			}
+			if r.NoStanzas {
+				continue
+			}
 			if si >= len(h.Stanzas) || h.Stanzas[si].Type != fmt.Sprintf("stub%d", i) {
 				return pbt.Failf("C11/stanza-order", "stanza %d is not recipient %d's", si, i)
 			}
@@ -272,6 +282,61 @@ func c11Check(c c11Case, st *stats.Run) error {
 		}
 	}
 	_ = bytes.Equal
+	return nil
+}
+
+// through the age command: a refused recipient list leaves nothing at the output
+type c11CLI struct {
+	Armor  bool `json:"armor"`
+	ToFile bool `json:"toFile"`
+	BadPos int  `json:"badPos"`
+	N      int  `json:"n"`
+}
+
+func c11CheckCLI(c c11CLI, st *stats.Run) error {
+	bin := os.Getenv("VERIF_BIN")
+	if bin == "" {
+		return nil
+	}
+	p := hx.ThePool()
+	dir, err := os.MkdirTemp(".", "c11cli-")
+	if err != nil {
+		return pbt.Failf("C11/harness", "%v", err)
+	}
+	dir, _ = filepath.Abs(dir)
+	defer os.RemoveAll(dir)
+	os.WriteFile(filepath.Join(dir, "in.txt"), []byte("plaintext"), 0o644)
+	var args []string
+	for i := 0; i < c.N; i++ {
+		if i == c.BadPos%c.N {
+			// the all-zero point: wrapping to it fails (low-order point)
+			args = append(args, "-r", refage.Bech32Encode("age", make([]byte, 32)))
+		} else {
+			args = append(args, "-r", refage.Bech32Encode("age", refage.X25519Public(p.X25519[i%8])))
+		}
+	}
+	if c.Armor {
+		args = append(args, "-a")
+	}
+	if c.ToFile {
+		args = append(args, "-o", "out.age")
+	}
+	args = append(args, "in.txt")
+	st.Case(true, stats.HashJSON(c), "cli", fmt.Sprintf("cli:armor=%v", c.Armor), fmt.Sprintf("cli:toFile=%v", c.ToFile))
+	st.Sample("cli-refusal", c)
+	code, stdout, stderr := runCLI(dir, []string{"PATH=/nonexistent", "HOME=" + dir}, nil, filepath.Join(bin, "age"), args...)
+	if code == -2 {
+		return nil
+	}
+	if code == 0 {
+		return pbt.Failf("C11/wrong-decision", "age accepted a recipient list with a recipient that cannot be wrapped to (%v)", args)
+	}
+	if len(stdout) != 0 {
+		return pbt.Failf("C11/bytes-before-refusal", "age refused the recipient list (%s) but wrote %d bytes to standard output: %q", trunc([]byte(stderr)), len(stdout), trunc([]byte(stdout)))
+	}
+	if b, err := os.ReadFile(filepath.Join(dir, "out.age")); err == nil {
+		return pbt.Failf("C11/bytes-before-refusal", "age refused the recipient list but left an output file of %d bytes: %q", len(b), trunc(b))
+	}
 	return nil
 }
 
@@ -317,6 +382,22 @@ func TestC11(t *testing.T) {
 		s.St.Exhaust("all lists of 1..3 recipients over {absent} + the 16 subsets of a 4-label universe (label order and nil/empty varied deterministically)", int64(n))
 	}, check)
 
+	pbt.Each(s, "labels-exhaustive", func(yield func(c11Case)) {
+		n := 0
+		sets := []int{-1, 0, 1, 2, 3}
+		for _, a := range sets {
+			for _, b := range sets {
+				for _, c3 := range sets {
+					for mask := 1; mask < 8; mask++ {
+						recs := []labelRec{{Set: a, NoStanzas: mask&1 != 0}, {Set: b, NoStanzas: mask&2 != 0}, {Set: c3, NoStanzas: mask&4 != 0}}
+						yield(c11Case{Recs: recs})
+						n++
+					}
+				}
+			}
+		}
+		s.St.Exhaust("3 recipients over 5 label sets where every non-empty subset of them returns no stanza at all", int64(n))
+	}, check)
 	// a refusal after more than 4 KiB / 16 KiB of header material has been produced
 	pbt.Each(s, "labels-exhaustive", func(yield func(c11Case)) {
 		n := 0
@@ -341,6 +422,22 @@ func TestC11(t *testing.T) {
 		}
 		s.St.Exhaust("an offending recipient (other labels / failing wrap / scrypt) at the end or middle of 3, 45 and 200 recipients, small and 3000-byte stanzas", int64(n))
 	}, check)
+	pbt.Each(s, "labels-cli", func(yield func(c11CLI)) {
+		n := 0
+		for _, a := range []bool{false, true} {
+			for _, f := range []bool{false, true} {
+				for _, nn := range []int{1, 3} {
+					for pos := 0; pos < nn; pos++ {
+						if s.Mine(n) {
+							yield(c11CLI{Armor: a, ToFile: f, BadPos: pos, N: nn})
+						}
+						n++
+					}
+				}
+			}
+		}
+		s.St.Exhaust("age command: a recipient that fails to wrap at every position of 1 and 3 recipients x armor x output to file / stdout", int64(n))
+	}, func(c c11CLI) error { return c11CheckCLI(c, s.St) })
 	pbt.Rapid(s, "labels", s.N(20000, 150000), func(t *rapid.T) c11Case {
 		n := rapid.IntRange(1, 6).Draw(t, "n")
 		// mostly-equal lists with one odd recipient at a drawn position, or free lists
@@ -369,6 +466,14 @@ func TestC11(t *testing.T) {
 		default:
 			for i := range recs {
 				recs[i].Set = rapid.IntRange(-1, 15).Draw(t, "freeSet")
+			}
+		}
+		if rapid.IntRange(0, 4).Draw(t, "withNoStanzas") == 0 {
+			for k := 0; k <= rapid.IntRange(0, 1).Draw(t, "nNoStanzas"); k++ {
+				recs[rapid.IntRange(0, n-1).Draw(t, "nsPos")].NoStanzas = true
+			}
+			if rapid.Bool().Draw(t, "nsFirst") {
+				recs[0].NoStanzas = true
 			}
 		}
 		if rapid.IntRange(0, 5).Draw(t, "withEmptyLabel") == 0 {
